@@ -124,10 +124,11 @@ Section Proofs.
   Qed.
 
   Lemma import_found_or_not p c tl : p = c :: tl -> c <> 46 ->
-    (exists md, import_module p = Ok md) \/ import_module p = Exn ModuleNotFoundError.
+    (exists md, import_module p = Ok md) \/ (exists e, import_module p = Exn e /\ pyexn_isa e ImportError = true).
   Proof.
     intros -> Hc. destruct (import_module (c :: tl)) as [md|e] eqn:E; [left; eauto|right].
-    destruct (Himp _ _ E) as [->|[[_ H]|[_ H]]]; [reflexivity|discriminate|].
+    exists e. split; [reflexivity|].
+    destruct (Himp _ _ E) as [->|[->|[[_ H]|[_ H]]]]; [reflexivity|reflexivity|discriminate|].
     change (str_startswith (c :: tl) [DOT]) with (Z.eqb DOT c && true) in H.
     apply andb_true_iff in H as [H _]. apply Z.eqb_eq in H. unfold DOT in H. congruence.
   Qed.
@@ -138,15 +139,15 @@ Section Proofs.
     intros Hc. induction k as [|k IH]; [reflexivity|].
     destruct (prefix_head c r k Hc) as [tl Hp].
     cbn [Resolve.try_prefixes ResolveSpec.owner_from]. unfold view_module at 1.
-    destruct (import_found_or_not _ c tl Hp Hc) as [[md Hm]|Hm]; rewrite Hm.
+    destruct (import_found_or_not _ c tl Hp Hc) as [[md Hm]|[e [Hm He]]]; rewrite Hm.
     - apply walk_through. reflexivity.
-    - simpl pyexn_isa. cbv iota. exact IH.
+    - rewrite He. exact IH.
   Qed.
 
   (* the owner-resolution step of the chain, for a well-formed owner part *)
   Lemma owner_step (B : Type) m (K : owner pymodule pyclass -> outcome jerr B) :
     negb (str_truthy m) || str_startswith m [46] = false ->
-    catchM_or (mapM OMod (import_module m)) ModuleNotFoundError
+    catchM_or (mapM OMod (import_module m)) ImportError
       (fun k => match enclosing m with Ok (Some x) => k x | Ok None => RaiseJ UnknownModuleError | Exn e => RaiseF e end) K
     = match owner_of m with Some o => K o | None => RaiseJ UnknownModuleError end.
   Proof.
@@ -162,9 +163,9 @@ Section Proofs.
     cbn [ResolveSpec.owner_from]. rewrite <- Hl, firstn_all, skipn_all.
     replace (join_dots names) with (c :: r) by (unfold names; symmetry; apply join_split_dots).
     unfold view_module at 1. cbn [ResolveSpec.through_classes].
-    destruct (import_found_or_not (c :: r) c r eq_refl Hc) as [[md Hm]|Hm]; rewrite Hm; unfold catchM_or, mapM.
+    destruct (import_found_or_not (c :: r) c r eq_refl Hc) as [[md Hm]|[e [Hm He]]]; rewrite Hm; unfold catchM_or, mapM.
     - reflexivity.
-    - simpl pyexn_isa. cbv iota. unfold names. rewrite (try_prefixes_owner_from c r l Hc).
+    - rewrite He. unfold names. rewrite (try_prefixes_owner_from c r l Hc).
       reflexivity.
   Qed.
 
@@ -176,18 +177,16 @@ Section Proofs.
   Lemma chain_arr l : chain (JArr l) = Return FJ_MapFromJson.
   Proof. reflexivity. Qed.
 
-  (* the translated chain on a dict = the decision table on the value under the tag key (None when absent) *)
-  Lemma chain_obj_tag d :
-    chain (JObj d) = outcome_of (chain_spec (Some (match dict_get d JSON_TYPE_NAME with Some v => v | None => JNull end))).
+  (* the translated chain on a dict = the decision table on the value under the tag key (JNull when absent) *)
+  Definition tagval (d : list (str * jv)) : jv := match dict_get d JSON_TYPE_NAME with Some v => v | None => JNull end.
+
+  Lemma chain_obj_tag d : chain (JObj d) = outcome_of (chain_spec (Some (tagval d))).
   Proof.
     unfold chain, from_json_chain, chain_spec, resolve_spec.
     change (jv_isinstance (JObj d) leaf_types) with false.
     change (jv_isinstance (JObj d) list_like_classes) with false.
-    cbv iota. unfold jv_get, bindM.
-    set (t := match dict_get d JSON_TYPE_NAME with Some v => v | None => JNull end).
-    rewrite falsy_truthy.
-    destruct (jv_truthy t) eqn:Ht; simpl negb; cbv iota; [|reflexivity].
-    destruct t as [|b|z|f|s|l|dd]; try reflexivity.
+    cbv iota. unfold jv_get, bindM. fold (tagval d).
+    destruct (tagval d) as [|b|z|f|s|l|dd]; try reflexivity.
     change (jv_isinstance (JStr s) [Tstr]) with true. simpl negb. cbv iota.
     unfold jv_rsplit1_pair, sep_of, catchM. rewrite split_last_dot_rsplit1.
     destruct (rsplit1 46 s) as [[m n]|] eqn:Es; [|reflexivity].
@@ -212,7 +211,7 @@ Section Proofs.
 
   Lemma chain_obj d : chain (JObj d) = outcome_of (chain_spec (tag_of d)).
   Proof.
-    rewrite chain_obj_tag. unfold tag_of. destruct (dict_get d JSON_TYPE_NAME); [reflexivity|].
+    rewrite chain_obj_tag. unfold tag_of, tagval. destruct (dict_get d JSON_TYPE_NAME); [reflexivity|].
     now rewrite chain_spec_absent.
   Qed.
 
@@ -225,12 +224,13 @@ Section Proofs.
   Qed.
 
   (* whole resolution = exactly the Spec's table, except where an abstract serialiser class is also registered *)
-  Lemma resolve_obj d : K_abstract_registered (JObj d) = false -> resolve (JObj d) = outcome_of (full_spec (tag_of d)).
+  Lemma resolve_obj d : K_abstract_registered (JObj d) = false ->
+    resolve (JObj d) = outcome_of (full_spec (tag_of d)).
   Proof.
-    unfold K_abstract_registered, resolve. fold chain. rewrite chain_obj.
+    unfold K_abstract_registered, resolve. fold chain. rewrite (chain_obj d).
     unfold chain_spec, full_spec, resolve_spec.
     destruct (tag_of d) as [t|]; [|reflexivity].
-    destruct (falsy t); [reflexivity|].
+    destruct (is_null t); [reflexivity|].
     destruct t; try reflexivity.
     destruct (split_last_dot s) as [[m n]|]; [|reflexivity].
     destruct (negb (module_part_ok m)); [reflexivity|].
@@ -282,9 +282,9 @@ Section Proofs.
     unfold resolve. fold chain.
     destruct data as [| | | | |l|d]; try (rewrite chain_leaf by exact I; discriminate).
     { rewrite chain_arr. discriminate. }
-    rewrite chain_obj. unfold chain_spec, resolve_spec, tag_of.
+    rewrite (chain_obj d). unfold chain_spec, resolve_spec, tag_of.
     destruct (dict_get d JSON_TYPE_NAME) as [t|] eqn:Et; [|discriminate].
-    destruct (falsy t); [discriminate|].
+    destruct (is_null t); [discriminate|].
     destruct t; try discriminate.
     rewrite split_last_dot_rsplit1.
     destruct (rsplit1 46 s) as [[m n]|] eqn:Es; [|discriminate].
@@ -328,6 +328,29 @@ Lemma abstract_registered_divergence :
   res = RaiseJ ClassNotDeserializableError /\ spec = RByRegistry 2 9 /\
   K_abstract_registered Z Z Z w_import w_getattr (fun _ => true) (fun _ => Ok true) (fun _ => Some 9) (fun _ => false) w_data = true.
 Proof. repeat split. Qed.
+
+(* ---- regression example for the former finding C19-e (fixed by 2cf212b): a present tag of the wrong JSON type that is falsy
+   (0, false, [], "") is a FORMAT error like the truthy ones; only an absent / null tag is missing *)
+Lemma falsy_wrong_type_is_format_error :
+  let run := fun t => resolve Z Z Z w_import w_getattr (fun _ => true) (fun _ => Ok true) (fun _ => None) (fun _ => true)
+                        (JObj [(JSON_TYPE_NAME, t)]) in
+  run (JInt 0) = RaiseJ InvalidTypeFormatError /\ run (JBool false) = RaiseJ InvalidTypeFormatError /\
+  run (JArr []) = RaiseJ InvalidTypeFormatError /\ run (JStr []) = RaiseJ InvalidTypeFormatError /\
+  run (JInt 5) = RaiseJ InvalidTypeFormatError /\ run JNull = RaiseJ MissingTypeError /\
+  resolve Z Z Z w_import w_getattr (fun _ => true) (fun _ => Ok true) (fun _ => None) (fun _ => true) (JObj []) = RaiseJ MissingTypeError.
+Proof. repeat split. Qed.
+
+(* ---- regression example for the former finding C19-c (fixed by 34c3d21): a module that exists but whose import raises
+   ImportError (not ModuleNotFoundError) is an unknown module; such an importer is inside the documented behaviours now *)
+Definition w_import_err (s : str) : M Z := if str_eqb s [107] then Exn ImportError else Exn ModuleNotFoundError.
+Lemma import_error_is_unknown_module :
+  importer_documented Z w_import_err /\
+  resolve Z Z Z w_import_err w_getattr (fun _ => true) (fun _ => Ok true) (fun _ => None) (fun _ => true) w_data
+  = RaiseJ UnknownModuleError.
+Proof.
+  split; [|reflexivity].
+  intros s e. unfold w_import_err. destruct (str_eqb s [107]); intros H; injection H as <-; auto.
+Qed.
 
 (* ---- the correspondence instance is the model / the Spec *)
 Lemma model_rcase_unfold c :
